@@ -78,7 +78,11 @@ Fixpoint ubj_payload (fuel : nat) (m : Z) (b : bytes) : ref_result :=
       else if m =? mI then int 2 true
       else if m =? ml then int 4 true
       else if m =? mL then int 8 true
-      else if m =? mC then int 1 false
+      else if m =? mC then            (* char: 0..127 (draft 12) *)
+        match b with
+        | c :: r => if c >? 127 then RMalformed else RValue (CNum (CInt c)) r
+        | [] => RTruncated
+        end
       else if m =? md then match take 4 b with Some (a, r) => RValue (CNum (CF32 (be_dec a))) r | None => RTruncated end
       else if m =? mD then match take 8 b with Some (a, r) => RValue (CNum (CF64 (be_dec a))) r | None => RTruncated end
       else if (m =? mH) || (m =? mS) then str
